@@ -7,12 +7,15 @@ import (
 	"encoding/hex"
 	"encoding/json"
 	"fmt"
+	"io"
+	"net/http"
 	"os"
 	"os/exec"
 	"path/filepath"
 	"sort"
 	"strings"
 
+	"github.com/nyaruka/gocommon/httpx"
 	"github.com/nyaruka/gocommon/i18n"
 	"github.com/nyaruka/gocommon/urns"
 	"github.com/nyaruka/gocommon/uuids"
@@ -34,6 +37,21 @@ func init() {
 	register("C08", "generated flows over the repository's whole action palette with localization in three further languages (different templates and group arguments per language), call_webhook headers, "+
 		"broadcast translations and nodes carrying several issues, contacts and msg resume histories, JSON objects with case-variant keys; every definition in the repository's test data for migration and cloning; "+
 		"generated contact queries; each scenario repeated in-process and a fixed subset in fresh processes; non-trivial = distinct (scenario kind, shape, outcome)", runC08)
+}
+
+// answers webhooks from the URL alone, so that every execution sees the same responses
+type c08Requestor struct{}
+
+func (c08Requestor) Do(client *http.Client, request *http.Request) (*http.Response, error) {
+	body, status := "not found", 404
+	u := request.URL.String()
+	for _, m := range [][2]string{{"bool", "true"}, {"false", "false"}, {"num", "12.50"}, {"obj", `{"Id":1,"ID":2,"ok":true,"list":[1,{"a":null}]}`}, {"arr", "[true,false,null]"}, {"null", "null"}, {"text", "hello"}} {
+		if strings.Contains(u, m[0]) {
+			body, status = m[1], 200
+		}
+	}
+	return &http.Response{Status: fmt.Sprintf("%d X", status), StatusCode: status, Proto: "HTTP/1.1", ProtoMajor: 1, ProtoMinor: 1,
+		Header: http.Header{"Content-Type": []string{"application/json"}}, Body: io.NopCloser(strings.NewReader(body)), ContentLength: int64(len(body)), Request: request}, nil
 }
 
 // one scenario's outputs, by name
@@ -127,7 +145,8 @@ func c08Scenario(r *Rng, i int, base map[string]json.RawMessage, palette []json.
 		for k := r.Range(1, 4); k > 0; k-- {
 			hdrs[Pick(r, []string{"Authorization", "X-Age", "X-Gender", "X-Bad", "X-Div", "Accept"})] = Pick(r, fieldRefs)
 		}
-		extras = append(extras, map[string]any{"uuid": us.next(), "type": "call_webhook", "method": "POST", "url": "http://example.com/@fields.state", "headers": hdrs, "body": "x", "result_name": "Hook"})
+		extras = append(extras, map[string]any{"uuid": us.next(), "type": "call_webhook", "method": "POST", "url": "http://example.com/" + Pick(r, []string{"bool", "false", "num", "obj", "arr", "null", "text", "missing", "@fields.state"}), "headers": hdrs, "body": "x", "result_name": "Hook"})
+		extras = append(extras, map[string]any{"uuid": us.next(), "type": "send_msg", "text": "hook: @webhook.json @webhook.json.ok @webhook.status @results.hook.extra @(json(webhook.json))"})
 		shapeBits = append(shapeBits, fmt.Sprintf("headers%d", len(hdrs)))
 	}
 	if r.Chance(50) {
@@ -138,7 +157,7 @@ func c08Scenario(r *Rng, i int, base map[string]json.RawMessage, palette []json.
 	}
 	if r.Chance(60) {
 		doc := Pick(r, []string{`{\"Foo\":1,\"foo\":2,\"FOO\":3}`, `{\"a\":{\"Key\":\"x\",\"KEY\":\"y\",\"key\":\"z\"},\"A\":0}`, `{\"b\":1,\"B\":[1,2]}`})
-		key := Pick(r, []string{"foo", "Foo", "a.key", "A", "b", "B"})
+		key := Pick(r, []string{"foo", "Foo", "fOO", "FOo", "a.key", "a.KeY", "A", "b", "B"})
 		extras = append(extras, map[string]any{"uuid": us.next(), "type": "send_msg", "text": fmt.Sprintf(`v=@(parse_json("%s").%s) j=@(json(parse_json("%s")))`, doc, key, doc)})
 		extras = append(extras, map[string]any{"uuid": us.next(), "type": "set_run_result", "name": "Obj", "value": fmt.Sprintf(`@(parse_json("%s").%s)`, doc, key)})
 		shapeBits = append(shapeBits, "case-variant-keys")
@@ -182,7 +201,7 @@ func c08Scenario(r *Rng, i int, base map[string]json.RawMessage, palette []json.
 	nodes := []map[string]any{
 		{"uuid": n1, "actions": append(pick(r.Range(1, 3)), extras...), "exits": []map[string]any{{"uuid": us.next(), "destination_uuid": n2}}},
 		{"uuid": n2, "router": router, "exits": exits},
-		{"uuid": n3, "actions": pick(r.Range(1, 3)), "exits": []map[string]any{{"uuid": us.next()}}},
+		{"uuid": n3, "actions": append(pick(r.Range(1, 3)), map[string]any{"uuid": us.next(), "type": "send_msg", "text": "after wait: w=@webhook j=@webhook.json h=@results.hook k=@(json(webhook)) id=@webhook.json.id"}), "exits": []map[string]any{{"uuid": us.next()}}},
 	}
 	main := map[string]any{"uuid": flowUUID, "name": "Main", "spec_version": "13.6.0", "language": "eng", "type": "messaging", "revision": 1, "expire_after_minutes": 60,
 		"localization": localization, "nodes": nodes}
@@ -196,8 +215,10 @@ func c08Scenario(r *Rng, i int, base map[string]json.RawMessage, palette []json.
 }
 
 // everything the property names for one generated flow: inspection, a run with resumes, the session JSON
-func c08Execute(assetsJSON []byte, flowUUID string, seed int64, inputs []string) (c08Out, error) {
+func c08Execute(assetsJSON []byte, flowUUID string, seed int64, inputs []string, restart bool) (c08Out, error) {
 	out := c08Out{}
+	httpx.SetRequestor(c08Requestor{})
+	defer httpx.SetRequestor(httpx.DefaultRequestor)
 	env := envs.NewBuilder().WithAllowedLanguages("eng", "spa", "fra").WithDefaultCountry("US").Build()
 	src, err := static.NewSource(assetsJSON)
 	if err != nil {
@@ -238,6 +259,20 @@ func c08Execute(assetsJSON []byte, flowUUID string, seed int64, inputs []string)
 	for k, in := range inputs {
 		if s.Status() != flows.SessionStatusWaiting {
 			break
+		}
+		if restart {
+			// the host stores the session between sprints and reads it back
+			b, err := json.Marshal(s)
+			if err != nil {
+				out["marshal-error"] = err.Error()
+				break
+			}
+			s2, err := eng.ReadSession(sa, b, assets.IgnoreMissing)
+			if err != nil {
+				out["read-error"] = err.Error()
+				break
+			}
+			s = s2
 		}
 		sp, err := s.Resume(resumes.NewMsg(nil, nil, flows.NewMsgIn(flows.MsgUUID(uuids.NewV4()), "tel:+12065550100", nil, in, nil)))
 		if err != nil {
@@ -365,6 +400,7 @@ type c08Plan struct {
 	shape    string
 	inputs   []string
 	seed     int64
+	restart  bool
 }
 
 func runC08(c *Ctx) {
@@ -389,9 +425,9 @@ func runC08(c *Ctx) {
 		a, fu, shape := c08Scenario(r, i, base, palette)
 		var inputs []string
 		for k := r.Range(0, 2); k > 0; k-- {
-			inputs = append(inputs, Pick(r, []string{"red", "blue", "hmm"}))
+			inputs = append(inputs, Pick(r, []string{"red", "blue", "hmm", "hmm"}))
 		}
-		plans = append(plans, c08Plan{a, fu, shape, inputs, int64(i)})
+		plans = append(plans, c08Plan{a, fu, shape, inputs, int64(i), r.Bool()})
 	}
 	names, defs := c08Definitions()
 	envQ := envs.NewBuilder().Build()
@@ -407,7 +443,7 @@ func runC08(c *Ctx) {
 		// a fresh process: print the digest of each scenario of the fixed subset and stop
 		w := bufio.NewWriter(os.Stdout)
 		for i, p := range plans {
-			o, err := c08Execute(p.assets, p.flowUUID, p.seed, p.inputs)
+			o, err := c08Execute(p.assets, p.flowUUID, p.seed, p.inputs, p.restart)
 			if err != nil {
 				fmt.Fprintf(w, "DIGEST flow %d rejected\n", i)
 				continue
@@ -430,13 +466,13 @@ func runC08(c *Ctx) {
 		reps = 8
 	}
 	for i, p := range plans {
-		desc := map[string]any{"assets": json.RawMessage(p.assets), "flow_uuid": p.flowUUID, "inputs": p.inputs, "seed": p.seed, "shape": p.shape}
+		desc := map[string]any{"assets": json.RawMessage(p.assets), "flow_uuid": p.flowUUID, "inputs": p.inputs, "seed": p.seed, "shape": p.shape, "restart_between_sprints": p.restart}
 		var first c08Out
 		rejected := false
 		for k := 0; k < reps && !rejected; k++ {
 			var o c08Out
 			var err error
-			if c.Guard("M-repeat", "panic:scenario", desc, func() { o, err = c08Execute(p.assets, p.flowUUID, p.seed, p.inputs) }) {
+			if c.Guard("M-repeat", "panic:scenario", desc, func() { o, err = c08Execute(p.assets, p.flowUUID, p.seed, p.inputs, p.restart) }) {
 				rejected = true
 				break
 			}
@@ -538,6 +574,23 @@ func runC08(c *Ctx) {
 			hn = append(hn, hx(nm))
 		}
 		c.Model("objget", fmt.Sprintf("objget %s %s", strings.Join(hn, ","), hx(key)), got, map[string]any{"properties": names, "key": key})
+		// the same lookup on the same object built again must answer the same
+		for k := 0; k < 12; k++ {
+			again := "none"
+			cp := map[string]types.XValue{}
+			for n, v := range props {
+				cp[n] = v
+			}
+			if v, ok := types.NewXObject(cp).Get(key); ok {
+				again = "ok " + v.(*types.XNumber).Render()
+			}
+			if again != got {
+				c.Fail("monitor", "M-objget-repeat", "repeat-differs:object-lookup", "the same property lookup on the same object gives different values",
+					map[string]any{"properties": names, "key": key, "first": got, "again": again})
+				break
+			}
+		}
+		c.Count("check:M-objget-repeat")
 		obj := types.NewXObject(props)
 		c.Model("objprops", "objprops "+strings.Join(hn, ","), "ok "+strings.Join(hxAll(obj.Properties()), ","), map[string]any{"properties": names})
 	}
